@@ -135,3 +135,8 @@ func Implies(a, b bool) bool { return !a || b }
 
 // DeepCopy is only meaningful under the symbolic executor (snapshot models); natively it returns x.
 func DeepCopy(x any) any { return x }
+
+// Seq is a ghost sequence counter shared by models and harnesses to order events on a path.
+var Seq int
+
+func Tick() int { Seq++; return Seq }
